@@ -1403,6 +1403,22 @@ def install_state(sess):
     sess.wrap(S.Scores, "confusion_matrix", "M-state", shape_post("confusion_matrix", "cm"), pre=pre)
     for n in ("eer", "auc", "swap", "threshold_at_metric", "bootstrap_sample", "bootstrap_metric", "bootstrap_ci"):
         sess.wrap(S.Scores, n, "M-state", state_post(n), pre=pre)
+    # ConfusionMatrix queries must leave the matrix and the class list alone as well
+    CMmod = sys.modules["score_analysis.cm"]
+
+    def cm_pre(args, kwargs):
+        self = args[0]
+        return np.asarray(self.matrix).tobytes(), np.asarray(self.matrix).shape, str(np.asarray(self.matrix).dtype), [str(c) for c in self.classes], self.binary
+
+    def cm_post(name):
+        def post(snap, args, kwargs, res):
+            sess.check("M-state", cm_pre(args, kwargs) == snap, "a ConfusionMatrix query mutated the matrix or the classes", lambda: {"method": name}, sig=("ConfusionMatrix", name), key="state-cm")
+
+        return post
+
+    for n in ("one_vs_all", "pop", "accuracy", "error_rate", "tp", "tn", "fp", "fn", "p", "n", "top", "ton", "tpr", "tnr", "fpr", "fnr", "tar", "frr", "trr", "far",
+              "tpr_ci", "tnr_ci", "fpr_ci", "fnr_ci", "topr", "tonr", "acceptance_rate", "rejection_rate", "ppv", "npv", "fdr", "for_", "class_accuracy", "class_error_rate"):
+        sess.wrap(CMmod.ConfusionMatrix, n, "M-state", cm_post(n), pre=cm_pre)
     for n in GROUP_RATE_NAMES:
         sess.wrap(G.GroupScores, n, "M-state", shape_post(n, "group"), pre=pre)
     for n in ("group_cm", "swap", "bootstrap_sample", "__getitem__"):
